@@ -6,10 +6,10 @@ from vp.engine import assume, check, cover, note, obligation, pick
 from vp.memenv import Sandbox, concrete_region
 
 BACKENDS = ["memory", "fs", "fs+meta", "fs+cache:0.004", "fs+cache:1"]
-OPS = sm.build_ops()
+OPS = sm.build_ops(values=("small", "held-array", "none"))
 
 
-def _history(kind, ops_idx):
+def _history(kind, ops_idx, quiet=False):
     model = sm.Model()
     sb = Sandbox(kinds=kind)
     try:
@@ -21,7 +21,7 @@ def _history(kind, ops_idx):
                 assume(False)
             sm.apply_op(backend, op)
             model.apply(op)
-            if op[0] == "memoize" and op[2] == "oversize":
+            if op[0] == "memoize" and op[2] == "held-array":
                 cover("oversize-value")
             if op[0] == "memoize" and op[1] in model.entries and step > 0:
                 cover("overwrite-or-rememoize")
@@ -29,7 +29,10 @@ def _history(kind, ops_idx):
                 cover("forget")
             if op[0] == "write_metadata":
                 cover("metadata")
-            sm.check_queries(backend, model, "")
+            if quiet and step < len(ops_idx) - 1:
+                sm.check_is_memoized_only(backend, model, "quiet:")
+            else:
+                sm.check_queries(backend, model, "")
     finally:
         sb.close()
 
@@ -38,7 +41,7 @@ def _history(kind, ops_idx):
     "C05.histories",
     covers=("oversize-value", "overwrite-or-rememoize", "forget", "metadata"),
     split={"backend": [0, 3], "o0": list(range(len(OPS)))},
-    bounds="all sequences of L=3 operations out of %d (memoize 4 calls x {small, oversize-for-4KiB, None} + another value + 2 key-override "
+    bounds="all sequences of L=3 operations out of %d (memoize 4 calls x {small, an ndarray that is oversize for 4 KiB, weak-referenceable and held by the caller, None} + another value + 2 key-override "
            "writes to a shared key; forget_call x4, forget_function x3, forget_everything; write_metadata x2) from the empty store, on the "
            "memory back-end and the filesystem back-end with a 4 KiB cache; after EVERY operation ALL read-only queries (get_memento(s), "
            "is_memoized, is_all_memoized over pairs, read_result, read_metadata, list_functions, list_mementos) are compared with a "
@@ -52,6 +55,25 @@ def histories(o0: int, o1: int, o2: int, backend: int):
     o2 = pick(o2, len(OPS))
     with concrete_region():
         _history(BACKENDS[backend], [o0, o1, o2])
+
+
+@obligation(
+    "C05.histories_quiet",
+    covers=("oversize-value", "overwrite-or-rememoize", "forget"),
+    split={"backend": [3], "o0": list(range(len(OPS)))},
+    tier_split={"thorough": {"backend": [3, 4], "o0": list(range(len(OPS)))}},
+    bounds="as C05.histories (L=3) on the filesystem back-end with a 4 KiB cache (thorough: also 1 MiB), but BETWEEN operations only "
+           "is_memoized is queried (the other queries fill the memory cache as a side effect and can mask what an operation left in it); "
+           "the full comparison runs after the last operation",
+    variables="choice: o0 (fixed per job), o1, o2",
+    budget_s={"quick": 170, "thorough": 900},
+    choice_vars=3,
+)
+def histories_quiet(o0: int, o1: int, o2: int, backend: int):
+    o1 = pick(o1, len(OPS))
+    o2 = pick(o2, len(OPS))
+    with concrete_region():
+        _history(BACKENDS[backend], [o0, o1, o2], quiet=True)
 
 
 @obligation(
